@@ -23,12 +23,13 @@ def USort(name):
 
 class SV:
     """Symbolic scalar.  `none` (a z3 Bool or None) marks an Optional: when it is true the value is None."""
-    __slots__ = ("t", "none", "pytype")
+    __slots__ = ("t", "none", "pytype", "origin")
 
-    def __init__(self, t, none=None, pytype=None):
+    def __init__(self, t, none=None, pytype=None, origin=None):
         self.t = t
         self.none = none
-        self.pytype = pytype  # optional tag used by isinstance()/type() (a string such as 'Context', 'bool')
+        self.pytype = pytype
+        self.origin = origin  # (store name, key path) when read out of a symbolic store  # optional tag used by isinstance()/type() (a string such as 'Context', 'bool')
 
     def __repr__(self):
         return f"SV({self.t}{' ?' + str(self.none) if self.none is not None else ''})"
@@ -236,10 +237,10 @@ def make_view(store, typ, prefix, keys):
         return StructView(store, typ, prefix, keys)
     if isinstance(typ, TOpt):
         v = View(store, typ, prefix, keys)
-        return SV(v.col("v"), none=v.col("none"), pytype=typ.pytype)
+        return SV(v.col("v"), none=v.col("none"), pytype=typ.pytype, origin=(store.name, list(keys)))
     if isinstance(typ, TScalar):
         v = View(store, typ, prefix, keys)
-        return SV(v.col("v"), pytype=typ.pytype)
+        return SV(v.col("v"), pytype=typ.pytype, origin=(store.name, list(keys)))
     raise OutOfReach(f"type {typ}")
 
 
@@ -325,7 +326,32 @@ def coerce_scalar(value, sort, allow_none=False):
         return SV(part_const(value))
     if isinstance(value, Opaque) and value.sort == sort:
         return SV(value.t)
+    if hasattr(value, "t") and hasattr(value.t, "sort") and value.t.sort() == sort:
+        return SV(value.t)
+    if sort.name() == "Obj":
+        return SV(obj_of(value))
     raise OutOfReach(f"cannot coerce {value!r} to {sort}")
+
+
+_OBJ_REG = {}
+_OBJ_BACK = {}
+
+
+def obj_of(value):
+    """Identity term (sort Obj) for an arbitrary Python-level object (closure, record, bound method)."""
+    key = id(value)
+    if key not in _OBJ_REG:
+        t = z3.Const(f"pyobj#{len(_OBJ_REG)}", USort("Obj"))
+        _OBJ_REG[key] = (value, t)
+        _OBJ_BACK[t.get_id()] = value
+    return _OBJ_REG[key][1]
+
+
+def value_of_obj(term):
+    r = _OBJ_BACK.get(term.get_id())
+    if r is None:
+        r = _OBJ_BACK.get(z3.simplify(term).get_id())
+    return r
 
 
 class Opaque:
